@@ -271,6 +271,8 @@ func (fc *FnCtx) loopHeader(h *ssa.BasicBlock, phiEntry map[*ssa.Phi]string) {
 		if rc := g.sorts.rangeConstraint(phi.Type(), t); rc != "" {
 			fc.assume(rc, "range")
 		}
+		// references held in local variables at the loop head are allocated (a later allocation cannot alias them)
+		fc.boundRefs(phi.Type(), t)
 		if phi.Comment == "rangeindex" {
 			// compiler-generated index of a range loop: starts at -1 and only increments
 			fc.assume(fmt.Sprintf("(and (>= %s (- 1)) (< %s 9223372036854775807))", t, t), "rangeindex in [-1, len)")
